@@ -95,6 +95,15 @@ func c05Catalogue(gwNS string, plus bool) []c05Exotic {
 				{Matches: []gatewayv1.HTTPRouteMatch{{Path: &gatewayv1.HTTPPathMatch{Type: helpers.GetPointer(gatewayv1.PathMatchPathPrefix), Value: helpers.GetPointer("/triple/")}}},
 					BackendRefs: []gatewayv1.HTTPBackendRef{be("svc-a", 80)}},
 			}}}},
+		// a rule whose FIRST match is of an unsupported kind (RegularExpression path, admitted by the CRD) and whose last match is fine
+		{"route-unsupported-then-supported-match", &gatewayv1.HTTPRoute{ObjectMeta: meta(gwNS, "x-mixed-matches"), Spec: gatewayv1.HTTPRouteSpec{
+			CommonRouteSpec: gatewayv1.CommonRouteSpec{ParentRefs: []gatewayv1.ParentReference{{Name: "gw"}}},
+			Rules: []gatewayv1.HTTPRouteRule{{Matches: []gatewayv1.HTTPRouteMatch{
+				{Path: &gatewayv1.HTTPPathMatch{Type: helpers.GetPointer(gatewayv1.PathMatchRegularExpression), Value: helpers.GetPointer("/re/.*")}},
+				{Headers: []gatewayv1.HTTPHeaderMatch{{Type: helpers.GetPointer(gatewayv1.HeaderMatchRegularExpression), Name: "X-Re", Value: "a.*"}},
+					Path: &gatewayv1.HTTPPathMatch{Type: helpers.GetPointer(gatewayv1.PathMatchPathPrefix), Value: helpers.GetPointer("/mixed-h")}},
+				{Path: &gatewayv1.HTTPPathMatch{Type: helpers.GetPointer(gatewayv1.PathMatchPathPrefix), Value: helpers.GetPointer("/mixed")}},
+			}, BackendRefs: []gatewayv1.HTTPBackendRef{be("svc-a", 80)}}}}}},
 		{"snippetsfilter", &ngfAPIv1alpha1.SnippetsFilter{ObjectMeta: meta(gwNS, "sf"), Spec: ngfAPIv1alpha1.SnippetsFilterSpec{Snippets: []ngfAPIv1alpha1.Snippet{
 			{Context: ngfAPIv1alpha1.NginxContextHTTPServerLocation, Value: "add_header X-S 1;"},
 			{Context: ngfAPIv1alpha1.NginxContextHTTPServer, Value: "client_body_buffer_size 8k;"},
